@@ -17,6 +17,7 @@ struct cfg {
   int bound;
   int max_retx;
   int same_mid;     /* the bystander session uses the same message ids as the main session */
+  int mid_wrap;     /* >0: the session's message id counter starts this many steps before it wraps to 0 */
 };
 
 #define MAXM 8
@@ -346,6 +347,8 @@ run(void *arg) {
       coap_session_set_nstart(sess[s], (uint16_t)C->nstart);
     if (s == 1 && C->same_mid)
       sess[1]->tx_mid = sess[0]->tx_mid;
+    if (s == 0 && C->mid_wrap)
+      sess[0]->tx_mid = (uint16_t)(0x10000 - C->mid_wrap);
   }
   int steps = 0;
   while (steps++ < 600 && step())
@@ -379,8 +382,8 @@ static int ncfgs;
 static void
 add(struct cfg c) {
   cfgs = realloc(cfgs, sizeof *cfgs * (size_t)(ncfgs + 1));
-  snprintf(c.name, sizeof c.name, "c08:nstart=%d,k=%d,t=%s,split=%d,by=%d,pm=%d,mr=%d,sm=%d,B=%d", c.nstart, c.k, c.types, c.split, c.bystander,
-           c.peer_mode, c.max_retx, c.same_mid, c.bound);
+  snprintf(c.name, sizeof c.name, "c08:nstart=%d,k=%d,t=%s,split=%d,by=%d,pm=%d,mr=%d,sm=%d,wrap=%d,B=%d", c.nstart, c.k, c.types, c.split, c.bystander,
+           c.peer_mode, c.max_retx, c.same_mid, c.mid_wrap, c.bound);
   cfgs[ncfgs++] = c;
 }
 
@@ -421,6 +424,13 @@ main(int argc, char **argv) {
           }
         }
       }
+  /* the message id counter wraps inside the burst: every position of the message that gets id 0x0000 (in flight, held) */
+  for (int ns = 1; ns <= 2; ns++)
+    for (int w = 1; w <= 4; w++) {
+      struct cfg c = {.nstart = ns, .k = 4, .split = 0, .bystander = 0, .peer_mode = 0, .max_retx = 2, .mid_wrap = w, .bound = T ? 2 : 1};
+      memset(c.types, 'C', 4);
+      add(c);
+    }
   /* the first Confirmable is given up (all its copies lost) while later messages wait for its slot */
   for (int ns = 1; ns <= 2; ns++)
     for (int k = ns + 1; k <= (T ? 5 : 4); k++)
@@ -433,7 +443,7 @@ main(int argc, char **argv) {
       }
   vx_ev_rule("executions of a real libcoap client session against a raw peer that ACKs / RSTs only what it received; enumerated: NSTART 1..3 x "
              "all CON/NON type vectors of bursts of 1..4 (thorough 5) messages x one or two bursts x bystander session (also with the same message ids as the main session), and all schedules with "
-             "<= bound deviations (drop / duplicate / reorder of any datagram, timer before delivery, peer verdict RST or silence for CON, RST for NON), plus bursts whose first Confirmable loses every copy and is given up while later ones are held; "
+             "<= bound deviations (drop / duplicate / reorder of any datagram, timer before delivery, peer verdict RST or silence for CON, RST for NON), plus bursts inside which the message id counter wraps to 0 and bursts whose first Confirmable loses every copy and is given up while later ones are held; "
              "non-trivial = deviation taken or retransmission; distinct = distinct observation logs");
   vx_ev_assumption("datagram (UDP) session; the 'before the session is established' clause is exercised with DTLS in the C19 harness");
   for (int i = 0; i < ncfgs; i++)
